@@ -820,6 +820,8 @@ type sys struct {
 	epochTimers int // vsched timer sequence number when the current dispatcher started
 	knownAll    int64
 	snapKnown   int64
+	// lateRecordAnswer: a held-back answer to lock / unlock / cancel has been delivered in this history
+	lateRecordAnswer bool
 	restarts    int
 
 	// slow answers: armSlow[kind] makes the next call of that kind answer late: its effect happens
@@ -889,6 +891,11 @@ func (s *sys) holdBack(kind string, epoch int) {
 	s.note("answer to %s is held back", kind)
 	vsched.WaitUntil("slow-"+kind, func() bool { return h.released })
 	s.gate(epoch)
+	if kind == "lock" || kind == "unlock" || kind == "cancel" {
+		// the dispatcher is about to apply an API answer that describes the container as it was a
+		// tick ago (Queue.updateWithResp copies state, priority and lock owner from it)
+		s.lateRecordAnswer = true
+	}
 }
 
 // releaseHolds lets the answers that were held back before the current tick arrive.
@@ -1026,7 +1033,13 @@ func (s *sys) onStartDecision(it arvados.InstanceType, ctr arvados.Container) {
 	if !c.startable() {
 		known := c.badBy == "dispatcher" || c.badSince <= s.snapKnown
 		if known {
-			s.viol("I2:start-without-lock", "StartContainer(c%d) while the API has it state=%s priority=%d locked-by-dispatcher=%v; it stopped being startable through %s (v%d), the scheduler's snapshot could know everything up to v%d | %s",
+			sig := "I2:start-without-lock"
+			if s.lateRecordAnswer && c.badBy == "user" {
+				// known finding C14-late-answer: the late answer's (older) record overwrote what a
+				// completed poll had already delivered
+				sig += ":after-late-lock-answer"
+			}
+			s.viol(sig, "StartContainer(c%d) while the API has it state=%s priority=%d locked-by-dispatcher=%v; it stopped being startable through %s (v%d), the scheduler's snapshot could know everything up to v%d | %s",
 				c.idx, c.state, c.prio, c.mine, c.badBy, c.badSince, s.snapKnown, s.tail(14))
 		}
 	}
